@@ -204,9 +204,53 @@ func (d *Discharger) ValuesOf(reg *Registry, o *Obligation, terms []string) (map
 	return out, true
 }
 
+var reFnEq = regexp.MustCompile(`([A-Za-z_][A-Za-z0-9_\.\[\]]*)\s*==\s*fn\("([A-Za-z_][A-Za-z0-9_]*)"\)`)
+
+// replayGlobalFact: a quantifier-free fact about package-level variables is written in the
+// Go subset of the contract language; it is evaluated by the real, initialised package.
+func replayGlobalFact(rep *report, o *Obligation, path string) bool {
+	src := strings.TrimSpace(o.Src)
+	if strings.Contains(src, "forall") || strings.Contains(src, "exists") || strings.Contains(src, "has(") || strings.Contains(src, "==>") || strings.Contains(src, "old(") {
+		return false
+	}
+	expr := reFnEq.ReplaceAllString(src, "govcSameFn($1, $2)")
+	if strings.Contains(expr, "fn(") {
+		return false
+	}
+	pkgName, dir := "bcl", rep.ck.P.RepoDir
+	if o.Fn != nil && o.Fn.Pkg.Pkg.Path() == mainPath {
+		pkgName, dir = "main", filepath.Join(dir, "cmd/bcl")
+	}
+	var sb strings.Builder
+	fmt.Fprintf(&sb, "package %s\n\nimport (\n\t\"fmt\"\n\t\"reflect\"\n\t\"testing\"\n)\n\n", pkgName)
+	sb.WriteString("func govcSameFn(a, b any) bool {\n\tva, vb := reflect.ValueOf(a), reflect.ValueOf(b)\n\tif !va.IsValid() || !vb.IsValid() || va.Kind() != reflect.Func || vb.Kind() != reflect.Func || va.IsNil() || vb.IsNil() {\n\t\treturn false\n\t}\n\treturn va.Pointer() == vb.Pointer()\n}\n\n")
+	fmt.Fprintf(&sb, "func TestGovcReplay(t *testing.T) {\n\tif %s {\n\t\tfmt.Println(\"REPLAY-FACT true\")\n\t} else {\n\t\tfmt.Println(\"REPLAY-FACT false\")\n\t}\n\tfmt.Println(\"REPLAY-DONE\")\n}\n", expr)
+	rec := &replayRecord{Function: "package initialisation", Inputs: map[string]string{}, GoTest: sb.String(), Dir: dir}
+	out, ok := runReplayTest(rec.GoTest, dir)
+	rec.Output = out
+	confirmed := false
+	switch {
+	case !ok:
+		rec.Verdict = "replay could not be run (the fact is not in the Go subset)"
+	case strings.Contains(out, "REPLAY-FACT false"):
+		rec.Verdict = "confirmed: the fact is false in the initialised package"
+		confirmed = true
+	default:
+		rec.Verdict = "not reproduced: the fact holds in the initialised package"
+	}
+	appendReplay(path, rec)
+	return confirmed
+}
+
 func tryReplay(rep *report, a *aggObl, path string) bool {
 	f := a.Fail
-	if f == nil || f.Res.Status != "sat" || f.O == nil || f.O.Fn == nil {
+	if f == nil || f.O == nil || f.O.Fn == nil {
+		return false
+	}
+	if f.O.Kind == "global" {
+		return replayGlobalFact(rep, f.O, path)
+	}
+	if f.Res.Status != "sat" {
 		return false
 	}
 	o := f.O
@@ -554,7 +598,7 @@ func cmdReplay(args []string) int {
 		return 0
 	}
 	fmt.Println("recorded verdict:", m.Replay.Verdict)
-	if strings.Contains(out, "REPLAY-PANIC:") || strings.HasPrefix(m.Replay.Verdict, "confirmed") {
+	if strings.Contains(out, "REPLAY-PANIC:") || strings.Contains(out, "REPLAY-FACT false") || strings.HasPrefix(m.Replay.Verdict, "confirmed") {
 		fmt.Println("VIOLATION reproduced on the real code")
 		return 1
 	}
